@@ -474,5 +474,167 @@ theorem lst_cursor_small (pos : BitVec 64) (h : pos.toNat ≤ 922337203685477580
   simp only [BitVec.toNat_add, hs, Nat.reducePow]
   omega
 
+/-! ### `calc_segment_alignment` keeps alignments small -/
+
+theorem calcSegAlign_small_aux (secs : List SecBuf)
+    (hs : ∀ s ∈ secs, s.addrAlign.toNat < 1099511627776) (l : List (BitVec 16)) (g g' : Seg)
+    (h : l.foldlM (fun g idx =>
+      match secs[idx.toNat]? with
+      | none => (throw (Fault.vecOob "calc_segment_alignment/sections_[index]") : M Seg)
+      | some s => pure (if save_csa_raise s.addrAlign g.align then { g with align := s.addrAlign } else g)) g = .ok g')
+    (hg : g.align.toNat < 1099511627776) : g'.align.toNat < 1099511627776 := by
+  induction l generalizing g with
+  | nil => simp only [List.foldlM, pure, Except.pure, Except.ok.injEq] at h; subst h; exact hg
+  | cons idx rest ih =>
+    simp only [List.foldlM, bind, Except.bind] at h
+    cases hsx : secs[idx.toNat]? with
+    | none => rw [hsx] at h; simp [throw, throwThe, MonadExceptOf.throw] at h
+    | some s =>
+      rw [hsx] at h
+      simp only [pure, Except.pure] at h
+      refine ih _ h ?_
+      split
+      · exact hs s (List.mem_of_getElem? hsx)
+      · exact hg
+
+theorem mapM_calcSegAlign_small (secs : List SecBuf)
+    (hs : ∀ s ∈ secs, s.addrAlign.toNat < 1099511627776) (l l' : List Seg)
+    (h : l.mapM (calcSegAlign secs) = .ok l') (hl : ∀ g ∈ l, g.align.toNat < 1099511627776) :
+    ∀ g' ∈ l', (∃ g ∈ l, g' = { g with align := g'.align }) ∧ g'.align.toNat < 1099511627776 := by
+  induction l generalizing l' with
+  | nil =>
+    simp only [List.mapM_nil, pure, Except.pure, Except.ok.injEq] at h; subst h
+    intro g' hg'; exact absurd hg' List.not_mem_nil
+  | cons g rest ih =>
+    rw [List.mapM_cons] at h
+    simp only [bind, Except.bind] at h
+    cases hg : calcSegAlign secs g with
+    | error e => rw [hg] at h; simp at h
+    | ok g1 =>
+      rw [hg] at h
+      simp only at h
+      cases hr : rest.mapM (calcSegAlign secs) with
+      | error e => rw [hr] at h; simp at h
+      | ok r' =>
+        rw [hr] at h
+        simp only [pure, Except.pure, Except.ok.injEq] at h
+        subst h
+        intro g' hg'
+        rcases List.mem_cons.1 hg' with rfl | hg'
+        · refine ⟨⟨g, List.mem_cons_self .., calcSegAlign_fields secs g _ hg⟩, ?_⟩
+          exact calcSegAlign_small_aux secs hs g.secs g _ hg (hl g (List.mem_cons_self ..))
+        · obtain ⟨⟨g0, hg0, he⟩, ha⟩ := ih r' hr (fun x hx => hl x (List.mem_cons_of_mem _ hx)) g' hg'
+          exact ⟨⟨g0, List.mem_cons_of_mem _ hg0, he⟩, ha⟩
+
+theorem save_cursor0_lt (a b c : BitVec 16) : (save_cursor0 a b c).toNat < 8589934592 := by
+  have ha := a.isLt; have hb := b.isLt; have hc := c.isLt
+  have hm : b.toNat * c.toNat < 65536 * 65536 := Nat.mul_lt_mul'' hb hc
+  simp only [save_cursor0, BitVec.toNat_add, BitVec.toNat_mul, BitVec.toNat_setWidth, Nat.reducePow]
+  simp only [Nat.reduceMul] at hm
+  rw [Nat.mod_eq_of_lt (show a.toNat < 18446744073709551616 by omega),
+      Nat.mod_eq_of_lt (show b.toNat < 18446744073709551616 by omega),
+      Nat.mod_eq_of_lt (show c.toNat < 18446744073709551616 by omega),
+      Nat.mod_eq_of_lt (show b.toNat * c.toNat < 18446744073709551616 by omega)]
+  omega
+
 end Small
+
+/-! ### the closed-form condition -/
+
+/-- **Small object** — plain bounds on the input of `save` that exclude every 64-bit wrap-around of
+    the layout cursor.  ELF64; fewer than `2^16` sections and `2^16` segments; every section's size
+    and alignment below `2^40`; every segment's alignment below `2^40`; every member of a segment
+    that carries an explicit address lies at or above the segment's virtual address, less than
+    `2^40` above it.  (No bound on addresses themselves, on `vaddr`, or on the header fields:
+    `e_ehsize + e_phentsize * e_phnum < 2^33` holds for all 16-bit values.) -/
+def SmallObject (o : Obj) : Prop :=
+  o.cls = .c64 ∧ o.secs.length < 65536 ∧ o.segs.length < 65536 ∧
+  (∀ s ∈ o.secs, s.size.toNat < 1099511627776 ∧ s.addrAlign.toNat < 1099511627776) ∧
+  (∀ g ∈ o.segs, g.align.toNat < 1099511627776 ∧
+    ∀ idx ∈ g.secs, ∀ s ∈ o.secs[idx.toNat]?, s.addrSet = true →
+      g.vaddr.toNat ≤ s.addr.toNat ∧ s.addr.toNat - g.vaddr.toNat < 1099511627776)
+
+instance (o : Obj) : Decidable (SmallObject o) := by unfold SmallObject; infer_instance
+
+/-- **Closed-form no-wrap.**  A small object never wraps the layout cursor: the domain hypothesis
+    `layoutNW` of the writer theorems follows from plain bounds on the input. -/
+theorem smallObject_layoutNW (o : Obj) (h : Bytes) (hs : SmallObject o) : layoutNW o h = true := by
+  obtain ⟨hc, hnsec, hnseg, hsz, hseg⟩ := hs
+  unfold layoutNW
+  cases hl : layoutOf o h with
+  | error e => rfl
+  | ok r =>
+  cases r with
+  | none => rfl
+  | some res =>
+  simp only
+  obtain ⟨-, hpos0, hm, ho, hfold, -, hloose, hshoff⟩ := layoutOf_parts o h res hl
+  have hp0 : res.pos0.toNat < 8589934592 := by rw [hpos0]; exact Small.save_cursor0_lt _ _ _
+  have hsegs0 := Small.mapM_calcSegAlign_small o.secs (fun s hs => (hsz s hs).2) o.segs res.segs0 hm
+    (fun g hg => (hseg g hg).1)
+  have hperm := orderedSegments_perm _ _ ho
+  have hlen0 : res.segs0.length = o.segs.length := by
+    have := congrArg List.length (mapM_calcSegAlign o.secs o.segs res.segs0 hm).1
+    simpa using this
+  have hlen : res.ordered.length < 65536 := by rw [hperm.length_eq, hlen0]; exact hnseg
+  -- the invariant at the start of pass 2
+  have hinv0 : Small.SmallInv 144115196665790464 res.ordered (lay0Of o res.pos0) := by
+    refine ⟨?_, hnsec, ?_, ?_⟩
+    · simp only [lay0Of, List.count_replicate_self]
+      have := Nat.mod_lt o.secs.length (show 0 < 65536 by decide)
+      omega
+    · intro k s hk; exact hsz s (List.mem_of_getElem? hk)
+    · intro g hg idx hidx s hsx _ has
+      obtain ⟨⟨g0, hg0, he⟩, -⟩ := hsegs0 g (hperm.mem_iff.1 hg)
+      have hsecs : g.secs = g0.secs := by rw [he]
+      have hv : g.vaddr = g0.vaddr := by rw [he]
+      rw [hv]
+      exact (hseg g0 hg0).2 idx (hsecs ▸ hidx) s hsx has
+  have hlo : ∀ g ∈ res.ordered, g ∈ res.ordered ∧ g.align.toNat < 1099511627776 :=
+    fun g hg => ⟨hg, (hsegs0 g (hperm.mem_iff.1 hg)).2⟩
+  obtain ⟨hnw2, hinv2⟩ := Small.segsNW_of_bound o.cls (Hdr.e_phoff o.cls o.enc res.hdr0)
+    (Hdr.e_phentsize o.cls o.enc res.hdr0) (Hdr.e_phnum o.cls o.enc res.hdr0) res.ordered
+    (lay0Of o res.pos0) 144115196665790464 res.ordered hc hlo (by omega) hinv0
+  have hinv2' := hinv2 [] res.lay2 res.done hfold
+  have hpot2 := hinv2'.pot
+  have hlen2 := hinv2'.len
+  obtain ⟨hnw3, hpos3⟩ := Small.looseNW_of_bound o.cls res.segs res.lay2.secs 0 res.lay2.pos
+    360287978779574272 hc
+    (fun s hs => by
+      obtain ⟨k, hk⟩ := List.getElem?_of_mem hs
+      exact hinv2'.sz k s hk)
+    (by omega) (by omega)
+  rw [layoutLoose_eq_spec] at hloose
+  have hp3 : res.pos3 = (looseSpec o.cls res.segs res.lay2.secs 0 res.lay2.pos).2 :=
+    (Prod.mk.inj hloose).2
+  simp only [hnw2, hnw3, Bool.true_and, decide_eq_true_eq]
+  rw [hshoff]
+  apply Small.lst_cursor_small
+  rw [hp3]; omega
+
+/-- `SmallObject` only looks at header fields, which the `get_data()` calls at the start of `save`
+    do not change -/
+theorem smallObject_preSave (o : Obj) (hs : SmallObject o) : SmallObject (preSave o) := by
+  obtain ⟨hc, hnsec, hnseg, hsz, hseg⟩ := hs
+  have hh := preSave_hdr o
+  refine ⟨hc, by rw [preSave_length]; exact hnsec, hnseg, ?_, ?_⟩
+  · intro s' hs'
+    obtain ⟨k, hk⟩ := List.getElem?_of_mem hs'
+    obtain ⟨s, hs0, he⟩ := hdrOf_getElem? hh k s' hk
+    simp only [hdrOf, Prod.mk.injEq] at he
+    rw [← he.2.1, ← he.2.2.2.2.2.2.1]
+    exact hsz s (List.mem_of_getElem? hs0)
+  · intro g hg
+    refine ⟨(hseg g hg).1, ?_⟩
+    intro idx hidx s' hs' has
+    obtain ⟨s, hs0, he⟩ := hdrOf_getElem? hh idx.toNat s' (Option.mem_def.1 hs')
+    simp only [hdrOf, Prod.mk.injEq] at he
+    rw [← he.2.2.2.2.1]
+    exact (hseg g hg).2 idx hidx s (Option.mem_def.2 hs0) (by rw [he.2.2.2.2.2.2.2]; exact has)
+
+/-- the form the writer theorems use -/
+theorem smallObject_layoutNW_preSave (o : Obj) (h : Bytes) (hs : SmallObject o) :
+    layoutNW (preSave o) h = true :=
+  smallObject_layoutNW (preSave o) h (smallObject_preSave o hs)
+
 end ElfioVerif
